@@ -129,6 +129,10 @@ class UMNDirHandler(DirHandler):
                     self.fileentries.remove(fileentriesdict[linkentry.selector])
                 else:
                     self.mergeentries(fileentriesdict[linkentry.selector], linkentry)
+            elif linkentry.gettype() == "X":
+                # Hiding something that is not listed anyway (a file that
+                # was removed, or that nobody can serve): nothing to do.
+                continue
             else:
                 self.fileentries.append(linkentry)
 
